@@ -558,6 +558,63 @@ Section S.
   End Ranges.
 
   (* ------------------------------------------------------------------ *)
+  (* C09: a run writes only the cells its handles point to               *)
+
+  Definition cells_of (hs : list (handle NN)) : list nat := map (fun h => h_cell h) hs.
+
+  Lemma mc_step_footprint c st d k :
+    ~ In k (cells_of (handles st)) ->
+    nth k (params (mc_step c st d)) n0 = nth k (params st) n0
+    /\ cells_of (handles (mc_step c st d)) = cells_of (handles st).
+  Proof.
+    intros Hk. unfold Optimiser.mc_step.
+    destruct (nth_error (handles st) (d_idx d)) as [h|] eqn:E; [|cbn; auto].
+    cbv zeta.
+    assert (Hne : k <> h_cell h).
+    { intros ->. apply Hk. unfold cells_of. apply in_map_iff. exists h. split; [reflexivity|]. eapply nth_error_In; eassumption. }
+    assert (Hcells : cells_of (set_nth (handles st) (d_idx d) (with_old NN h (get_cell NN (params st) (h_cell h)))) = cells_of (handles st)).
+    { unfold cells_of. clear Hk Hne. revert E. generalize (d_idx d). generalize (handles st) as l.
+      induction l as [|x xs IH]; intros [|i] E; cbn in *; try discriminate; auto.
+      - injection E as ->. reflexivity.
+      - f_equal. now apply IH. }
+    destruct (Optimiser.accept _ _ _ _ _ _); cbn [params handles]; split; auto.
+    - now apply nth_set_nth_other.
+    - rewrite !nth_set_nth_other by exact Hne. reflexivity.
+  Qed.
+
+  Lemma advance_footprint c st d k :
+    ~ In k (cells_of (handles st)) ->
+    nth k (params (advance c st d)) n0 = nth k (params st) n0
+    /\ cells_of (handles (advance c st d)) = cells_of (handles st).
+  Proof.
+    intros Hk. destruct (fin st) eqn:Hfin; [rewrite C06_fin_frozen by assumption; auto|].
+    destruct (mc_step_footprint c st d k Hk) as [H1 H2].
+    destruct (advance_cases NN fexp score c st d Hfin) as [-> | (-> & _ & _)]; [auto|].
+    rewrite end_loop_params, end_loop_handles. auto.
+  Qed.
+
+  (* C09: optimising never changes a parameter cell that none of the state's handles points to - in
+     particular the cells of the original when a copy (fresh cells) is optimised, and the cells of every
+     other replica *)
+  Theorem C09_run_writes_only_own_cells c draws : forall st k,
+    ~ In k (cells_of (handles st)) -> nth k (params (run c st draws)) n0 = nth k (params st) n0.
+  Proof.
+    induction draws as [|d ds IH]; intros st k Hk; [reflexivity|].
+    rewrite run_cons. destruct (advance_footprint c st d k Hk) as [H1 H2].
+    rewrite IH; [exact H1|]. now rewrite H2.
+  Qed.
+
+  (* a copy made by Clone lives in fresh cells: the original's cells (indices below n) are not in its footprint *)
+  Theorem C09_optimising_a_clone_leaves_the_original c draws st n :
+    Forall (fun h => (n <= h_cell h)%nat) (handles st) ->
+    forall k, (k < n)%nat -> nth k (params (run c st draws)) n0 = nth k (params st) n0.
+  Proof.
+    intros H k Hk. apply C09_run_writes_only_own_cells. intros Hin.
+    unfold cells_of in Hin. apply in_map_iff in Hin. destruct Hin as (h & <- & Hh).
+    rewrite Forall_forall in H. specialize (H h Hh). lia.
+  Qed.
+
+  (* ------------------------------------------------------------------ *)
   (* C08/C20: the returned state has a defined score; optimise returns   *)
 
   Section Deterministic.
